@@ -1,10 +1,14 @@
 use crate::core::Prop;
 
+pub mod c05;
+pub mod c06;
 pub mod c10;
 pub mod c11;
 pub mod c13;
 pub mod c16;
 pub mod c17;
+pub mod c18;
+pub mod c21;
 pub mod c22;
 pub mod c23;
 pub mod c26;
@@ -12,5 +16,5 @@ pub mod c27;
 pub mod c29;
 
 pub fn all() -> Vec<Prop> {
-    vec![c10::PROP, c11::PROP, c13::PROP, c16::PROP, c17::PROP, c22::PROP, c23::PROP, c26::PROP, c27::PROP, c29::PROP]
+    vec![c05::PROP, c06::PROP, c10::PROP, c11::PROP, c13::PROP, c16::PROP, c17::PROP, c18::PROP, c21::PROP, c22::PROP, c23::PROP, c26::PROP, c27::PROP, c29::PROP]
 }
